@@ -115,9 +115,10 @@ func SplitMarginComments(sql string) (query string, comments MarginComments) {
 	}), comments
 }
 
-// StripLeadingComments trims the SQL string and removes any leading comments
+// StripLeadingComments trims the SQL string and removes any leading comments,
+// and the semicolons of empty statements in front of the statement
 func StripLeadingComments(sql string) string {
-	sql = strings.TrimFunc(sql, unicode.IsSpace)
+	sql = trimLeadingBlanks(sql)
 
 	for hasCommentPrefix(sql) {
 		switch sql[0] {
@@ -142,10 +143,18 @@ func StripLeadingComments(sql string) string {
 			sql = sql[index+1:]
 		}
 
-		sql = strings.TrimFunc(sql, unicode.IsSpace)
+		sql = trimLeadingBlanks(sql)
 	}
 
 	return sql
+}
+
+// trimLeadingBlanks trims white space at both ends and, in front, the
+// semicolons of empty statements: the grammar skips them, ";/* c */ drop table t"
+// is a DROP
+func trimLeadingBlanks(sql string) string {
+	sql = strings.TrimLeftFunc(sql, func(r rune) bool { return r == ';' || unicode.IsSpace(r) })
+	return strings.TrimRightFunc(sql, unicode.IsSpace)
 }
 
 func hasCommentPrefix(sql string) bool {
